@@ -333,3 +333,108 @@ Proof.
   split; [|split; reflexivity].
   repeat constructor; try (intros x Hx; cbn in Hx; inversion Hx; subst; unfold kind_key, zkey; lia); unfold char_range; lia.
 Qed.
+
+(* ---- one set message on the slot it addresses (used by C15's end-to-end model) ---- *)
+Lemma elem_set_facts : forall k e cb loc old args st o,
+  elem_cb k = Some cb -> env_ok e k ->
+  bounds_ordered (kind_key k) (p_min e) (p_max e) -> map_in_range e ->
+  conforming e k args -> stable e k old -> loc <> undo_path ->
+  cb e loc old args = Some (st, o) ->
+  stable e k st /\
+  undo_events o = (if kind_key k old =? kind_key k st then []
+                   else [Reply (mk undo_path [As loc; event_arg k old; event_arg k st])]) /\
+  (forall v, args = [event_arg k v] -> stable e k v -> st = v).
+Proof.
+  intros k e cb loc old args st o Hcb Henv Hord Hmap Hc Hold Hloc H.
+  destruct (elem_event k e cb loc old args st o Hcb Henv Hord Hmap Hc Hold H) as [Hnew _].
+  split; [exact Hnew|]. split.
+  - destruct Hold as (Hv & _ & _).
+    destruct (conforming_shape e k args Hc) as [E|[x E]]; subst args.
+    + assert (Q : st = old /\ exists y, o = [Reply (mk loc [y])]).
+      { destruct k; inversion Hcb; subst cb; cbn in H; inversion H; subst;
+          (split; [reflexivity|eexists; reflexivity]). }
+      destruct Q as (Es & y & Eo). subst st o. rewrite Z.eqb_refl.
+      unfold undo_events. cbn [filter]. rewrite (is_undo_query loc _ Hloc). reflexivity.
+    + destruct (conf_numeric k e cb loc old x Hcb Henv Hv Hc) as [(mkb & v & _ & NS)|(s & i & Ex & Hs & Ecb & Ek)].
+      * destruct (numeric_set_spec _ _ _ _ _ _ _ _ NS) as (res & Er & SP).
+        rewrite H in Er. inversion Er; subst res. unfold set_spec in SP. cbv zeta in SP.
+        destruct SP as (S1 & S2 & _). cbn [fst snd] in S1, S2. rewrite <- S1 in S2. exact S2.
+      * subst x cb.
+        destruct (rOptionCb_set_symbol e loc old s i Hs) as (res & Er & SP).
+        rewrite H in Er. inversion Er; subst res. unfold set_spec in SP. cbv zeta in SP.
+        destruct SP as (S1 & S2 & _). cbn [fst snd] in S1, S2. rewrite <- S1 in S2.
+        rewrite Ek. assert (Ekk : kind_key k = zkey)
+          by (pose proof (f_equal (fun f => f 0) Ek) as Ek0; destruct k; try reflexivity; discriminate Ek0).
+        rewrite Ekk. exact S2.
+  - intros v Ea Hv. subst args. destruct Hold as (Vo & _ & _).
+    destruct (elem_replay k e cb loc old v Hcb Henv Vo Hv) as (_ & _ & o' & R).
+    rewrite H in R. inversion R. reflexivity.
+Qed.
+
+(* the entry of the port's state that the message addresses *)
+Definition slot (k : kind) (e : penv) (m : str) : nat :=
+  match k with KAI | KAF | KAO => Z.to_nat (boils_idx e m) | _ => 0%nat end.
+
+Definition slot_facts (k : kind) (e : penv) (loc m : str) (st : list Z) (args : list arg)
+           (st' : list Z) (outs : list out) : Prop :=
+  exists old new,
+    nth_error st (slot k e m) = Some old /\ nth_error st' (slot k e m) = Some new /\
+    length st' = length st /\
+    (forall j, j <> slot k e m -> k <> KCO -> nth_error st' j = nth_error st j) /\
+    stable e k old /\ stable e k new /\
+    undo_events outs = (if kind_key k old =? kind_key k new then []
+                        else [Reply (mk undo_path [As loc; event_arg k old; event_arg k new])]) /\
+    (forall v, args = [event_arg k v] -> stable e k v -> new = v).
+
+Lemma step_slot_facts : forall k e loc m st args st' outs,
+  undo_kind k -> env_ok e k ->
+  bounds_ordered (kind_key k) (p_min e) (p_max e) -> map_in_range e ->
+  conf e k args -> stored_stable e k st -> loc <> undo_path ->
+  step k e loc m st args = Some (st', outs) ->
+  slot_facts k e loc m st args st' outs.
+Proof.
+  intros k e loc m st args st' outs Hk Henv Hord Hmap Hc Hst Hloc H.
+  assert (SC : forall cb, elem_cb k = Some cb -> slot k e m = 0%nat -> k <> KCO ->
+               conforming e k args -> Forall (stable e k) st ->
+               scalar st (fun v => cb e loc v args) = Some (st', outs) ->
+               slot_facts k e loc m st args st' outs).
+  { intros cb Hcb Hs Hn Hc' Hst' HS. unfold scalar in HS.
+    destruct st as [|old [|w r]]; try discriminate.
+    destruct (cb e loc old args) as [[v' o']|] eqn:E; [|discriminate]. inversion HS; subst st' outs.
+    inversion Hst' as [|? ? Hold _]; subst.
+    destruct (elem_set_facts k e cb loc old args v' o' Hcb Henv Hord Hmap Hc' Hold Hloc E) as (A & B & C).
+    exists old, v'. rewrite Hs. cbn [nth_error].
+    split; [reflexivity|]. split; [reflexivity|]. split; [reflexivity|].
+    split; [intros j Hj _; destruct j; [contradiction|]; destruct j; reflexivity|].
+    split; [exact Hold|]. split; [exact A|]. split; [exact B|exact C]. }
+  assert (AR : forall cb, elem_cb k = Some cb -> slot k e m = Z.to_nat (boils_idx e m) ->
+               conforming e k args -> Forall (stable e k) st ->
+               at_idx st (boils_idx e m) (fun cur => cb e loc cur args) = Some (st', outs) ->
+               slot_facts k e loc m st args st' outs).
+  { intros cb Hcb Hs Hc' Hst' HA. unfold at_idx in HA. rewrite <- Hs in HA.
+    destruct (nth_error st (slot k e m)) as [old|] eqn:En; [|discriminate].
+    destruct (cb e loc old args) as [[v' o']|] eqn:E; [|discriminate]. inversion HA; subst st' outs.
+    pose proof (Forall_nth_error _ _ _ _ _ Hst' En) as Hold.
+    destruct (elem_set_facts k e cb loc old args v' o' Hcb Henv Hord Hmap Hc' Hold Hloc E) as (A & B & C).
+    assert (Hlt : (slot k e m < length st)%nat) by (apply nth_error_Some; rewrite En; discriminate).
+    exists old, v'. split; [exact En|]. split; [apply nth_error_upd_same; exact Hlt|].
+    split; [apply length_upd|]. split; [intros j Hj _; apply nth_error_upd_other; congruence|].
+    split; [exact Hold|]. split; [exact A|]. split; [exact B|exact C]. }
+  destruct Hk as [[Hk|[Hk|[Hk|[Hk|[Hk|[Hk|Hk]]]]]]|Hk]; subst k; cbn [step] in H.
+  - exact (SC rParamCb eq_refl eq_refl ltac:(discriminate) Hc Hst H).
+  - exact (SC rParamICb eq_refl eq_refl ltac:(discriminate) Hc Hst H).
+  - exact (SC rParamFCb eq_refl eq_refl ltac:(discriminate) Hc Hst H).
+  - exact (SC rOptionCb eq_refl eq_refl ltac:(discriminate) Hc Hst H).
+  - exact (AR rArrayICb_elem eq_refl eq_refl Hc Hst H).
+  - exact (AR rParamFCb eq_refl eq_refl Hc Hst H).
+  - exact (AR rOptionCb eq_refl eq_refl Hc Hst H).
+  - destruct Hst as (v & n & Est & Hold). subst st.
+    rewrite counted_as_option in H.
+    destruct (rOptionCb e loc v args) as [[v' o']|] eqn:E; [|discriminate]. inversion H; subst st' outs.
+    change (stable e KO v) in Hold. change (conforming e KO args) in Hc.
+    destruct (elem_set_facts KO e rOptionCb loc v args v' o' eq_refl I Hord Hmap Hc Hold Hloc E) as (A & B & C).
+    exists v, v'. cbn [slot nth_error].
+    split; [reflexivity|]. split; [reflexivity|]. split; [reflexivity|].
+    split; [intros j _ Hn; exfalso; apply Hn; reflexivity|].
+    split; [exact Hold|]. split; [exact A|]. split; [exact B|exact C].
+Qed.
